@@ -182,11 +182,13 @@ Definition portfolio_ht : list (formula -> formula) := INTUITIONISTIC ++ HT.
 (* a chain with k >= 1 guards weighs 4k-2 (evaluate_comparisons splits it into k single-guard
    comparisons, weight 2 each, and k-1 conjunctions); `<-` weighs 2, every other connective 1;
    a quantifier block weighs 1 + its number of variables *)
+Definition mu_chain (gs : list guard) : nat :=
+  match gs with [] => 2 | _ => 4 * List.length gs - 2 end.
 Definition mu_atomic (a : aformula) : nat :=
   match a with
   | ATrue | AFalse => 1
   | AAtom _ _ => 1
-  | ACmp _ gs => match gs with [] => 2 | _ => 4 * List.length gs - 2 end
+  | ACmp _ gs => mu_chain gs
   end.
 Definition mu_conn (c : bconn) : nat := match c with CRimp => 2 | _ => 1 end.
 Fixpoint mu (f : formula) : nat :=
